@@ -270,7 +270,7 @@ def extract_history(trace_path, line):
     with open(trace_path) as f:
         lines = f.readlines()
     i = line - 1
-    if '"ev":"case"' in lines[i][:40]:
+    if '"ev":"case"' in lines[i][:600]:
         return [lines[i]]     # calculation cases are self-contained
     start = i
     while start > 0 and '"ev":"reset"' not in lines[start][:40]:
@@ -280,14 +280,14 @@ def extract_history(trace_path, line):
 
 def model_case(run, label):
     """The TLC-emitted case behind a case label <prop>-case-<k>, if any."""
-    m = re.match(r"^(C\d+)-case-(\d+)$", label or "")
+    m = re.match(r"^(C\d+)-([a-z]*case2?)-(\d+)$", label or "")
     if not m:
         return None
-    p = os.path.join(run.work, "cases-%s.ndjson" % m.group(1))
+    p = os.path.join(run.work, "%ss-%s.ndjson" % (m.group(2), m.group(1)))
     try:
         with open(p) as f:
             for i, ln in enumerate(f):
-                if i == int(m.group(2)):
+                if i == int(m.group(3)):
                     c = json.loads(ln)
                     c["k"] = i
                     return c
